@@ -464,9 +464,16 @@ func signature(n node) string {
 	}
 	switch s.Kind {
 	case sergen.Array:
+		if s.Elem.Named() {
+			// element type is a defined type over a basic kind ([N]NU8 is not a byte array)
+			return pre + "array-of-named-" + s.Elem.Kind.String()
+		}
 		return pre + "array-of-non-byte"
 	case sergen.Ptr:
 		if s.Elem.Kind == sergen.Array {
+			if s.Elem.Elem.Named() {
+				return pre + "ptr-to-array-of-named-" + s.Elem.Elem.Kind.String()
+			}
 			return pre + "ptr-to-array-of-non-byte"
 		}
 		return pre + "ptr-" + signature(node{s.Elem, n.v, nil})
@@ -500,7 +507,16 @@ func signature(n node) string {
 		if s.Kind == sergen.Map && s.R.LexSet && !s.R.AutoOrder {
 			return pre + "map-with-explicit-lexical-ordering-false"
 		}
+		if s.Elem.Named() {
+			return pre + s.Kind.String() + "-of-named-" + s.Elem.Kind.String()
+		}
+		if s.Kind == sergen.Map && s.Key.Named() {
+			return pre + "map-with-named-" + s.Key.Kind.String() + "-key"
+		}
 		return pre + s.Kind.String() + "-of-" + s.Elem.Kind.String()
+	}
+	if s.Named() {
+		return pre + "named-" + s.Kind.String()
 	}
 	return pre + s.Kind.String()
 }
@@ -743,6 +759,9 @@ func exercise(st *stats, u *sergen.Universe, si int, s *sergen.Shape, nVals int)
 		}
 		for _, p := range pairs {
 			st.dist("feature_pairs", p)
+		}
+		for _, cl := range s.Classes() {
+			st.count("shapes_with/"+cl, 1)
 		}
 		if len(st.samples) < 1 && vi(vals) > 2 {
 			b, _ := sergen.RefEncode(s, vals[2])
